@@ -188,7 +188,7 @@ def fam_gap(prop, tier, budget=None):
 
 
 def c02(tier):
-    return s1_parser("verifHarness_C02", "C02/accepted", tier) + [dict(r, args=[2] + r["args"][1:]) for r in s2_accepting(1, tier)] + fam(2, tier) + corpus(2)
+    return s1_parser("verifHarness_C02", "C02/accepted", tier) + [dict(r, args=[2] + r["args"][1:]) for r in s2_accepting(1, tier)] + fam(2, tier) + fam_quote(2, tier) + corpus(2)
 
 
 def c16(tier):
@@ -315,7 +315,7 @@ def c01(tier):
     for form in range(8):
         for n in range(0, k + 1):
             runs.append(dict(harness="verifHarness_C01_lit", args=[n, form]))
-    return runs + s2_accepting(1, tier) + fam(1, tier) + corpus(1)
+    return runs + s2_accepting(1, tier) + fam(1, tier) + fam_quote(1, tier) + corpus(1)
 
 
 def c04(tier):
